@@ -2,23 +2,42 @@
    frames, and the property checker on the observed frames. *)
 From Dastard Require Import Common.ZX Common.CaseLib C14.Model C14.Spec.
 
-Record case := {
+(* one record with the two messages observed for it *)
+Record item := {
   c_rec : record;                    (* the record handed to messageRecords / messageSummaries *)
   c_recmsg : list (list Z);          (* frames returned by messageRecords *)
   c_summsg : list (list Z)           (* frames returned by messageSummaries *)
 }.
 
+(* A case is a BATCH: the harness builds the messages of all its records first, keeps the returned frames
+   as they are (no copy), and reads them only after the last message has been built - as a publisher
+   goroutine holds a built message while the other port's goroutine builds its own.  The requirement is
+   per message ([Spec.C14_check_batch]): every held message must still decode to its own record. *)
+Definition case := list item.
+
 Definition msg_eqb (a b : list (list Z)) : bool := list_eqb zlist_eqb a b.
 
-(* (code, first differing message: 0 = record message, 1 = summary message, -1 = none).
-   Records outside the property's domain ([fits_b] false: channel or presample count that does not fit
-   its header field) are compared with the mirror only; the property says nothing about them. *)
+Definition triples (c : case) : list (record * list (list Z) * list (list Z)) :=
+  map (fun it => (c_rec it, c_recmsg it, c_summsg it)) c.
+
+(* index of the first message that differs from the model's: 2*i for the record message of record i,
+   2*i+1 for its summary message; -1 when all agree *)
+Fixpoint first_diff (i : Z) (c : case) : Z :=
+  match c with
+  | [] => -1
+  | it :: rest =>
+      if negb (msg_eqb (c_recmsg it) (record_msg (c_rec it))) then 2 * i
+      else if negb (msg_eqb (c_summsg it) (summary_msg (c_rec it))) then 2 * i + 1
+      else first_diff (i + 1) rest
+  end.
+
+(* (code, first differing message).  Records outside the property's domain ([fits_b] false: channel or
+   presample count that does not fit its header field) are compared with the mirror only; the property
+   says nothing about them (and by checker_characterisation no message would be accepted for them). *)
 Definition verdict (c : case) : Z * Z :=
-  let r := c_rec c in
-  let a0 := msg_eqb (c_recmsg c) (record_msg r) in
-  let a1 := msg_eqb (c_summsg c) (summary_msg r) in
-  let chk := if fits_b r then C14_check r (c_recmsg c) (c_summsg c) else true in
-  (verdict_code (a0 && a1) chk, if negb a0 then 0 else if negb a1 then 1 else -1).
+  let d := first_diff 0 c in
+  let chk := C14_check_batch (filter (fun t => fits_b (fst (fst t))) (triples c)) in
+  (verdict_code (d =? -1) chk, d).
 
 (* compact constructors for generated files *)
 Definition ramp (a b n : Z) : list Z := map (fun i => (a + b * i) mod 65536) (zrange 0 n).
@@ -46,7 +65,7 @@ Definition bf0 := 240. Definition bf1 := 241. Definition bf2 := 242. Definition 
 
 Definition mk (chan : Z) (signed : bool) (pre : Z) (data : list Z) (period vpa time frame : Z)
               (ptmean peak rms avg resid : Z) (coefs : list Z)
-              (recmsg summsg : list (list Z)) : case :=
+              (recmsg summsg : list (list Z)) : item :=
   {| c_rec := {| r_chan := chan; r_signed := signed; r_pre := pre; r_data := data;
                  r_period := period; r_vpa := vpa; r_time := time; r_frame := frame;
                  r_ptmean := ptmean; r_peak := peak; r_rms := rms; r_avg := avg; r_resid := resid;
